@@ -51,9 +51,9 @@ NewlyDead == { i \in 1..Len(table') : table'[i].kind = "dead" }
 \* ---- ghost updates that follow from the event alone ----
 GhostStep(e) ==
   /\ issued' =
-       IF e.ev \in AllocEvents THEN issued \cup {[h |-> e.res, s |-> e.s]}
+       IF e.ev \in AllocEvents THEN issued \cup {[h |-> e.res, s |-> e.s, perm |-> (e.ev = "AllocStatic")]}
        ELSE IF e.ev = "AllocModuleRefStr"
-            THEN issued \cup { [h |-> e.parts[k], s |-> e.ss[k]] : k \in 1..Len(e.ss) }
+            THEN issued \cup { [h |-> e.parts[k], s |-> e.ss[k], perm |-> TRUE] : k \in 1..Len(e.ss) }
             ELSE issued
   /\ reclaimed' = reclaimed \cup NewlyDead
   /\ markedSince' =
@@ -137,11 +137,11 @@ ReadsOK ==
     LET rs == Rec[l - 1].reads IN
     \A k \in 1..Len(rs) :
       \* the harness logs one entry per issued pair
-      /\ [h |-> rs[k].h, s |-> rs[k].s] \in issued
+      /\ \E x \in issued : x.h = rs[k].h /\ x.s = rs[k].s
       /\ LiveH(rs[k].h) => (rs[k].ok /\ rs[k].r = rs[k].s)
 ReadsComplete ==
   (l > 1 /\ Rec[l - 1].ev \notin {"Reset", "Panic"}) =>
-    Cardinality(issued) = Len(Rec[l - 1].reads)
+    Cardinality({ <<x.h, x.s>> : x \in issued }) = Len(Rec[l - 1].reads)
 
 \* (drift) the temporary intern table has no entry whose slot is gone
 NoStaleIntern == (l > 1 /\ Rec[l - 1].ev \notin {"Reset", "Panic"}) => Rec[l - 1].post.stale = 0
